@@ -35,6 +35,8 @@ static const uint16_t LATE_W[] = { 16, 17, 31, 32, 33, 48, 64, 100, 128, 200, 25
                                    16, 17, 32, 48, 64,                            /* low-byte carry at block w */
                                    16, 32, 64 };                                  /* 16-bit carry at block w */
 #define N_LATE ((int) (sizeof LATE_W / sizeof LATE_W[0]))
+static const uint32_t PONC_D[] = { 1, 2, 3, 4, 5, 6, 7, 8, 9, 12, 13, 16, 17 };
+#define N_PONC ((int) (sizeof PONC_D / sizeof PONC_D[0]))
 static uint32_t
 late_w(int cls)
 {
@@ -256,6 +258,19 @@ build_shapes(int a, shapes_t *S)
                                                 s.hash_len = fl - 8 - (uint32_t) pad; /* PLI */
                                                 push(S, s);
                                         }
+                /* counter carries of the 128-bit big-endian PON counter block: low 64 bits = 2^64 - d, so that the carry out of the low
+                 * quad word happens at block d (classes 40..: high quad word random; 60..: all ones, the whole block wraps) */
+                for (int k = 0; k < N_PONC; k++)
+                        for (int hi = 0; hi < 2; hi++)
+                                for (uint32_t fl = 72; fl <= 328; fl += 64)
+                                        for (int d = 0; d < 2; d++) {
+                                                if (PONC_D[k] * 16 + 16 > fl)
+                                                        continue;
+                                                shape_t s = { .len = fl, .dir = (uint8_t) d, .inplace = 1 };
+                                                s.hash_len = fl - 8 - 1;
+                                                s.ivclass = (uint8_t) ((hi ? 60 : 40) + k);
+                                                push(S, s);
+                                        }
                 /* small PLI values inside a larger padded frame */
                 for (uint32_t pli = 0; pli <= 12; pli++)
                         for (int d = 0; d < 2; d++) {
@@ -287,6 +302,16 @@ static hset_t *distinct;
 static void
 counter_iv(uint8_t *iv, int cls, uint64_t seed)
 {
+        if (cls >= 40) { /* PON: low quad word 2^64 - d */
+                int hi = cls >= 60, k = cls - (hi ? 60 : 40);
+                uint64_t lo = 0 - (uint64_t) PONC_D[k];
+                fill_rand(iv, 16, seed);
+                if (hi)
+                        memset(iv, 0xff, 8);
+                for (int i = 0; i < 8; i++)
+                        iv[8 + i] = (uint8_t) (lo >> (56 - 8 * i));
+                return;
+        }
         if (cls >= 11) {
                 int k = cls - 11;
                 uint32_t w = LATE_W[k], l;
